@@ -122,7 +122,7 @@ m("capslock_toggles_on_up_too", ["C04"], LIB, """            KeyEvent {
                 code: KeyCode::NumpadLock,
                 state: KeyState::Down,
             } => {""", "CapsLock toggles on release as well")
-m("singleshot_lshift_sets_shift", ["C04", "C14"], LIB, """            KeyEvent {
+m("singleshot_lshift_sets_shift", ["C04"], LIB, """            KeyEvent {
                 code: KeyCode::RShift,
                 state: KeyState::Down,
             } => {""", """            KeyEvent {
